@@ -1377,8 +1377,7 @@ def families(ctx):
 
 
 def run(ctx):
-    for name, fn in families(ctx):
-        ctx.guarded(name, fn)
+    ctx.run_families(families(ctx))
     ctx.guarded('native battery', lambda: battery_selftest(ctx))
     ctx.bounds += ['one node / one loop element at a time with arbitrary verdicts for the members (structural induction => data of any depth and size): sets, records, record types, attribute maps, tag maps, '
                    'ancestor lists, sub-expression lists and required-attribute lists with <= 2 members (<= 3 enumerated choices); member names compared through symbolic identities',
